@@ -339,11 +339,17 @@ def rule_frames(report, prog):
             report.check(okk, 'C04-R2', key(f.qname, 'frame accepted only if: ' + what), f.loc(),
                          'decode_frame accepts a frame without checking: %s' % what)
         codes = [try_const(e.comparators[0]) for e in ast.walk(f.node) if isinstance(e, ast.Compare) and norm(e.left) == 'frame[1]']
-        d = [try_const(x.value) for x in walk_no_nested(f.node) if isinstance(x, ast.Assign) and isinstance(x.value, ast.Dict)]
+        # the dispatch table: {code: 'ATR'} + suffix through eval(), or {code: ATR_RES}
+        suffix = '_RES' if role == 'Initiator' else '_REQ'
+        d = []
+        for x in ast.walk(f.node):
+            if isinstance(x, ast.Dict) and None not in x.keys:
+                d.append({try_const(k): (v.value + suffix if isinstance(v, ast.Constant) and isinstance(v.value, str) else norm(v))
+                          for k, v in zip(x.keys, x.values)})
         okk = len(codes) == 1 and len(d) == 1 and set(codes[0]) == set(d[0].keys())
         report.check(okk, 'C04-R2', key(f.qname, 'accepted command codes == dispatch table keys'), f.loc(),
                      'accepted codes %r differ from the dispatch table %r' % (codes, d))
-        suffix = '_RES' if role == 'Initiator' else '_REQ'
+        suffix = ''
         for k, v in (d[0] if d else {}).items():
             c = prog.classes.get('%s.%s%s' % (DEP, v, suffix))
             pc = None
@@ -438,7 +444,11 @@ def rule_loops(report, prog):
                         kind = 'every cycle is one exchange bounded by the deadline (timeout 0 after it)'
                     elif 'MoreInformation' in test and ('send_dep_req_recv_dep_res' in body or 'send_dep_res_recv_dep_req' in body):
                         kind = 'one new frame per cycle (peer chaining), each exchange bounded by timeout/deadline'
-                    elif test == 'dep_req is None' and 'self.send_res_recv_req(res, deadline)' in body and 'if req is None:' in body.replace('\n', ' '):
+                    elif test in ('dep_req is None', 'True') and len(live(lp.body)) > 1 and \
+                            norm(live(lp.body)[0]) == 'req = self.send_res_recv_req(res, deadline)' and \
+                            isinstance(live(lp.body)[1], ast.If) and norm(live(lp.body)[1].test) == 'req is None' and \
+                            isinstance(last_live(live(lp.body)[1].body), ast.Return):
+                        # every cycle starts with one exchange bounded by the deadline and ends the operation when that gave nothing
                         kind = 'one frame per cycle until the deadline makes send_res_recv_req return None'
                     report.check(kind is not None, 'C04-R5', key(g.qname, 'while loop has a progress argument', lp.test), g.loc(lp),
                                  'loop `while %s` in %s has no recognised bound (deadline, retry counter, payload consumption)' % (test, g.qname),
